@@ -130,6 +130,14 @@ CHECKS = {
              'when the other tree is mutated.',
         note='delete / allow_new flags are compared through merge behaviour, not attribute by attribute.',
         design='4/C19'),
+    'C20': dict(
+        technique='property-based testing over generated schedules (Hypothesis) under a deterministic line-level thread scheduler (sys.settrace + condition variable): concurrent vs sequential observations',
+        text='2-3 threads each build from their own file (includes, !unsafe markers, failing inputs) with their own safe flag; a generated '
+             'schedule of (thread, quantum) pairs - random prefix, repeated fine-grained pattern, drawn round-robin tail - decides after how many '
+             'line events inside the package control moves. Every thread must observe exactly what it observes alone: per node path, source '
+             'file, safety and value, or the same error type, text and cause chain.',
+        note='Interleavings are sampled, each one exact and replayable; switches only at python line events inside awesomeyaml (the stated granularity).',
+        design='4/C20'),
     'C15': dict(
         technique='property-based metamorphic testing (Hypothesis): five relations (determinism, idempotence, empty-neutral, key permutation, flag-neutral) per generated sequence',
         text='Each generated sequence over priority/!del/!merge tags is rebuilt twice, with the last document repeated, with {} inserted at every '
